@@ -10,6 +10,7 @@ import E57.Proofs.CrcAlgebra
 import E57.Proofs.PagesRead
 import E57.Proofs.CrcBurst
 import E57.Proofs.ToolsProps
+import E57.Proofs.HeaderPage
 namespace E57.C07
 open E57
 
@@ -141,5 +142,34 @@ theorem read_err_or_same (r r2 : PR) (n : Nat) (h1 : r.CacheInv) (h2 : r2.CacheI
       ¬ pageValid (devPage r2.dev.data r.pageSize p) r.pageSize) :
     ∀ r2' bs, r2.read n = .ok (r2', bs) → ∃ r', r.read n = .ok (r', bs) ∧ r'.offset = r2'.offset :=
   pr_read_err_or_same r r2 n h1 h2 hps hpg hoff hdiff
+
+/-! ## the file header is protected like all other data -/
+
+/-- **`E57Reader::new` validates the header page.**  The 48 header bytes are read from the bare device
+    (they contain the page size), then once more through the page layer: an accepted file has a valid
+    page 0. -/
+theorem open_checks_header_page (file : Bytes) (xo : XmlOracle) (fp : FloatParse) (rd : Reader)
+    (h : Reader.open file xo fp = some rd) : pageValid (devPage file 1024 0) 1024 :=
+  HeaderPage.open_checks_header_page file xo fp rd h
+
+/-- the same for `E57Reader::raw_xml`, with the page size its header bytes store -/
+theorem rawXml_checks_header_page (file xml : Bytes) (h : rawXml file = some xml) :
+    ∃ ps, devGetU64 ⟨file, 0⟩ 40 = some ps ∧ pageValid (devPage file ps 0) ps :=
+  HeaderPage.rawXml_checks_header_page file xml h
+
+/-- **An altered header is rejected**: a content whose page 0 does not carry a valid checksum (for
+    1024-byte pages, and for the page size its own header bytes store) is opened by neither entry point. -/
+theorem header_alteration_rejected (d d' : Bytes) (xo : XmlOracle) (fp : FloatParse)
+    (hlen : d'.length = d.length) (hsame : d'.drop 1024 = d.drop 1024)
+    (hbad : ¬ pageValid (devPage d' 1024 0) 1024)
+    (hbadRaw : ∀ ps, devGetU64 ⟨d', 0⟩ 40 = some ps → ¬ pageValid (devPage d' ps 0) ps) :
+    Reader.open d' xo fp = none ∧ rawXml d' = none :=
+  HeaderPage.header_alteration_rejected d d' xo fp hlen hsame hbad hbadRaw
+
+/-- in terms of the explicit predicate of `validate_crc` (`ToolsP.PageValid`: `drop`/`take`, `crc32c`,
+    `toBE32`) -/
+theorem open_checks_header_page_explicit (file : Bytes) (xo : XmlOracle) (fp : FloatParse) (rd : Reader)
+    (h : Reader.open file xo fp = some rd) : ToolsP.PageValid 1024 file 0 :=
+  (ToolsP.pageValid_devPage_iff 1024 file 0 (by omega)).mp (open_checks_header_page file xo fp rd h)
 
 end E57.C07
